@@ -221,6 +221,7 @@ func Roles() Spec {
 		Msg("UpdateClassAdmin(A,C01->X32)", &basetypes.MsgUpdateClassAdmin{Admin: A.String(), ClassId: "C01", NewAdmin: x32.String()}),
 		Msg("UpdateProjectAdmin(A,C01-001->X32)", &basetypes.MsgUpdateProjectAdmin{Admin: A.String(), ProjectId: "C01-001", NewAdmin: x32.String()}),
 		Msg("UpdateClassIssuers(A,C01,-D,-A)", &basetypes.MsgUpdateClassIssuers{Admin: A.String(), ClassId: "C01", RemoveIssuers: []string{D.String(), A.String()}}),
+		Msg("RemoveAllowedBridgeChain(G,Polygon-capitalised)", &basetypes.MsgRemoveAllowedBridgeChain{Authority: G.String(), ChainName: "Polygon"}),
 		Msg("UpdateClassIssuers(A,C01,+X32,+C)", &basetypes.MsgUpdateClassIssuers{Admin: A.String(), ClassId: "C01", AddIssuers: []string{x32.String(), C.String()}}),
 	} {
 		evs = append(evs, fix(a))
